@@ -8,7 +8,7 @@ from ..polyid import Poly, Translator
 PID = "C11"
 LEVEL = "other"
 CRATES = ["rlib_gcd"]
-RELEASE = False
+RELEASE = True
 ARMED = True
 ENGINES = ["E3", "E7", "E4c"]
 TECHNIQUE = "verification conditions over the generic MIR of egcd/crt discharged by polynomial normal forms with the division axiom b = a*(b/a) + b%a and the recursion's post-condition as hypothesis; structural sign rules for gcd/lcm; shape of the CRT reduction"
